@@ -3,3 +3,14 @@ import Peppi.Props.C14
 #print axioms Peppi.Props.C14.fromF'_norm_intoF'
 #print axioms Peppi.Props.C14.fromCols_toCols
 #print axioms Peppi.Props.C14.fromCols_allset
+#print axioms Peppi.Props.C14.views_End
+#print axioms Peppi.Props.C14.views_Item
+#print axioms Peppi.Props.C14.views_ItemMisc
+#print axioms Peppi.Props.C14.views_Position
+#print axioms Peppi.Props.C14.views_Post
+#print axioms Peppi.Props.C14.views_Pre
+#print axioms Peppi.Props.C14.views_Start
+#print axioms Peppi.Props.C14.views_StateFlags
+#print axioms Peppi.Props.C14.views_TriggersPhysical
+#print axioms Peppi.Props.C14.views_Velocities
+#print axioms Peppi.Props.C14.views_Velocity
